@@ -251,8 +251,7 @@ func (wl *WaitList) Delete(address types.Address, pubkey types.Pubkey, coin type
 func (wl *WaitList) getOrNew(address types.Address) *Model {
 	w := wl.get(address)
 	if w == nil {
-		w = &Model{List: make([]*Item, 0), address: address, markDirty: wl.markDirty}
-		wl.setToMap(address, w)
+		w = wl.setToMapIfAbsent(address, &Model{List: make([]*Item, 0), address: address, markDirty: wl.markDirty})
 	}
 
 	return w
@@ -276,9 +275,21 @@ func (wl *WaitList) get(address types.Address) *Model {
 
 	m.address = address
 	m.markDirty = wl.markDirty
-	wl.setToMap(address, m)
 
-	return m
+	return wl.setToMapIfAbsent(address, m)
+}
+
+// setToMapIfAbsent publishes a model loaded from the tree (or a new empty one) unless another goroutine
+// published one for the address since getFromMap missed: the published model may carry uncommitted changes.
+func (wl *WaitList) setToMapIfAbsent(address types.Address, model *Model) *Model {
+	wl.lock.Lock()
+	defer wl.lock.Unlock()
+
+	if existing := wl.list[address]; existing != nil {
+		return existing
+	}
+	wl.list[address] = model
+	return model
 }
 
 func (wl *WaitList) getFromMap(address types.Address) *Model {
